@@ -118,6 +118,36 @@ pub struct UK {
     pub k: un::USame,
 }
 
+// an import statement long enough for a formatter to wrap it over several lines
+#[derive(TS, Serialize, Deserialize, Clone, Debug, Samples)]
+#[ts(export_to = "fmt/deps.ts")]
+pub struct LongDependencyNameNumberOne {
+    pub one: i32,
+}
+#[derive(TS, Serialize, Deserialize, Clone, Debug, Samples)]
+#[ts(export_to = "fmt/deps.ts")]
+pub struct LongDependencyNameNumberTwo {
+    pub two: i32,
+}
+#[derive(TS, Serialize, Deserialize, Clone, Debug, Samples)]
+#[ts(export_to = "fmt/deps.ts")]
+pub struct LongDependencyNameNumberThree {
+    pub three: i32,
+}
+#[derive(TS, Serialize, Deserialize, Clone, Debug, Samples)]
+#[ts(export_to = "fmt/both.ts")]
+pub struct FmtUserA {
+    pub a: LongDependencyNameNumberOne,
+    pub b: LongDependencyNameNumberTwo,
+    pub c: LongDependencyNameNumberThree,
+}
+#[derive(TS, Serialize, Deserialize, Clone, Debug, Samples)]
+#[ts(export_to = "fmt/both.ts")]
+pub struct FmtUserB {
+    pub b: LongDependencyNameNumberTwo,
+    pub d: UD,
+}
+
 // ---- C05: declaration texts that stress the merge (multi-line bodies, docs, prefix names, imports) ----
 
 /// line one
@@ -207,6 +237,11 @@ pub fn registry() -> Vec<TypeEntry> {
         TypeEntry::serde::<un::USame>("UNSame", "un::USame"),
         TypeEntry::serde::<UJ>("UJ", "UJ"),
         TypeEntry::serde::<UK>("UK", "UK"),
+        TypeEntry::serde::<LongDependencyNameNumberOne>("Long1", "LongDependencyNameNumberOne"),
+        TypeEntry::serde::<LongDependencyNameNumberTwo>("Long2", "LongDependencyNameNumberTwo"),
+        TypeEntry::serde::<LongDependencyNameNumberThree>("Long3", "LongDependencyNameNumberThree"),
+        TypeEntry::serde::<FmtUserA>("FmtUserA", "FmtUserA"),
+        TypeEntry::serde::<FmtUserB>("FmtUserB", "FmtUserB"),
         TypeEntry::ts::<Foo>("Foo", "Foo"),
         TypeEntry::ts::<FooBar>("FooBar", "FooBar"),
         TypeEntry::ts::<Foo1<u8>>("Foo1", "Foo1<u8>"),
